@@ -102,7 +102,7 @@ class RoundTrip(Harness):
                 if isinstance(back, Frame) and len(back.names) == len(obj.names):
                     back = Frame(dict(zip(obj.names, back.cols.values())))
             dk = ("b", "i", "f", "T") if self.fmt in ("pickle", "npz", "parquet") else ()
-            cl += same_frame_clauses(obj, back, "read back", dk)
+            cl += same_frame_clauses(obj, back, "read back", dk, exact_floats=self.fmt not in ("csv", "json"))
         else:
             cl.append(("same number of items", T(isinstance(back, LoD) and len(back.items) == len(obj.items))))
             if isinstance(back, LoD):
